@@ -200,6 +200,12 @@ func c01Cases(tier string) []SyncCase {
 			}
 		}
 	}
+	// every layout again with both roots reached through symlinks (the last component, or an ancestor), into an empty
+	// destination and onto the all-separate layout
+	for _, ls := range parts {
+		cases = append(cases, SyncCase{Src: mk(ls, 0), Dst: nil, ViaLinks: true}, SyncCase{Src: mk(ls, 0), Dst: mk(parts[0], 1), ViaLinks: true},
+			SyncCase{Src: mk(ls, 0), Dst: mk(ls, 1), ViaLinks: true, Notify: true})
+	}
 	// symlink inodes with several names (every partition), into an empty destination, onto the same layout and
 	// onto the all-separate one (special files with several names arrive as separate nodes, DESIGN.md 5.3)
 	for _, kind := range []fsmodel.Kind{fsmodel.Symlink} {
@@ -254,7 +260,14 @@ func c01Cases(tier string) []SyncCase {
 				older[i].Data, older[i].Mtime = fsmodel.Content(90+i, len(older[i].Data)/2+1), older[i].Mtime+50
 			}
 		}
-		for _, dst := range []fsmodel.Tree{nil, odd, older} {
+		// ... and what an unpacked archive of an earlier version looks like: same sizes, other bytes, times on the second
+		archived := odd.Clone()
+		for i := range archived {
+			if archived[i].Kind == fsmodel.File {
+				archived[i].Data, archived[i].Mtime = fsmodel.Content(190+i, len(archived[i].Data)), archived[i].Mtime/1e9*1e9
+			}
+		}
+		for _, dst := range []fsmodel.Tree{nil, odd, older, archived} {
 			for _, mem := range []bool{false, true} {
 				cases = append(cases, SyncCase{Src: odd, Dst: dst, Mem: mem}, SyncCase{Src: odd, Dst: dst, Mem: mem, Merge: true, Notify: true})
 			}
